@@ -341,7 +341,27 @@ pub fn child(seed: u64) -> i32 {
     }
     let double = LogRecorder::new(7, &log);
     let drops = double.drops.clone();
-    match RecoverableRecorder::new(super::c02::Reentrant(double)).install() {
+    // install() runs under the scheduler (one thread): if the failing path never hands the recorder back but spins in
+    // into_inner's retry loop, that is a deterministic livelock instead of a child that has to be killed
+    let mut installed = None;
+    {
+        let slot = &mut installed;
+        let body: Box<dyn FnOnce() + Send + '_> = Box::new(move || *slot = Some(RecoverableRecorder::new(super::c02::Reentrant(double)).install()));
+        let out = sched::explore(&[], SchedOpts { max_steps: 4000, ..Default::default() }, vec![body]);
+        if out.livelock || out.budget_exhausted {
+            println!("CHILD-FAIL failed-install-never-returns install() over an existing global recorder keeps spinning in into_inner's retry loop instead of handing the recorder back; trace tail {:?}", out.trace.iter().rev().take(4).collect::<Vec<_>>());
+            return 1;
+        }
+        if !out.panics.is_empty() {
+            println!("CHILD-FAIL install-panicked {:?}", out.panics);
+            return 1;
+        }
+    }
+    let Some(installed) = installed else {
+        println!("CHILD-FAIL harness install() did not run");
+        return 2;
+    };
+    match installed {
         Err(e) => {
             if !pre_installed {
                 println!("CHILD-FAIL install-failed-without-existing-recorder install() failed although no global recorder existed");
